@@ -65,6 +65,14 @@ def lexer_state(ctx):
     inits = {ast.unparse(s.targets[0]) for s in lp.body if isinstance(s, ast.Assign)}
     ctx.ob("R17.1", "SVGLexicalParser.parse[cursor reset]", {"self.pathd", "self.pos", "self.limit", "self.parser"} <= inits, str(sorted(inits)), lp.lineno,
            "the cursor must be re-initialised for the new string")
+    # the command interpreter must not consult the cursor: how a command is read may not depend on where in the string it stands
+    body_reads = []
+    inits = 0
+    for n in ast.walk(lp):
+        if isinstance(n, ast.Attribute) and isinstance(n.value, ast.Name) and n.value.id == "self" and n.attr in ("pos", "limit", "pathd") and isinstance(n.ctx, ast.Load):
+            body_reads.append("self.%s line %d" % (n.attr, n.lineno))
+    ctx.ob("R17.1", "SVGLexicalParser.parse[position-independent]", not body_reads, "; ".join(body_reads) or "the dispatch never reads the cursor", lp.lineno,
+           "a decision based on the cursor position (first command of THIS string) differs between Path(a b) and Path(a) + b")
     rc = ctx.fn("SVGLexicalParser._rcoord", "R17.1")
     reads = {".".join(attr_chain(n)) for n in ast.walk(rc) if isinstance(n, ast.Attribute) and attr_chain(n) and attr_chain(n)[0] == "self" and len(attr_chain(n)) >= 3}
     ctx.ob("R17.1", "SVGLexicalParser._rcoord[base source]", reads <= {"self.parser.current_point"}, str(sorted(reads)), rc.lineno,
